@@ -917,17 +917,28 @@ RULES["exp"] = _mk_uf("exp")
 
 @rule("pow")
 def _pow(trace, args, avals, params, prim):
-    """pow(b, x): only b == float(e) (jnp.logspace(..., base=jnp.e)) -> exp(x).  The float
-    literal e is identified with Euler's number (part of the real-number model of floats)."""
+    """pow(b, x): b == float(e) (jnp.logspace(..., base=jnp.e)) -> exp(x) (the float literal e is
+    identified with Euler's number: part of the real-number model of floats); b == exp(t) -> exp(t*x);
+    small concrete non-negative integer exponents -> repeated multiplication."""
     b, x = to_obj(args[0]), to_obj(args[1])
     shape = np.broadcast_shapes(b.shape, x.shape)
     bb, xb = np.broadcast_to(b, shape), np.broadcast_to(x, shape)
     out = np.empty(shape, dtype=object)
     for i in np.ndindex(*shape):
-        base = bb[i]
-        if is_sym(base) or float(base) != math.e:
-            raise Unsupported("pow with base other than e")
-        out[i] = uf("exp", xb[i])
+        base, x = force(bb[i]), force(xb[i])
+        if isinstance(base, (XR, float, Opaque)) or isinstance(x, (XR, float, Opaque)):
+            raise Unsupported("pow of non-finite")
+        if not is_sym(base) and float(base) == math.e:
+            out[i] = uf("exp", x)
+        elif isinstance(base, z3.ExprRef) and z3.is_app(base) and "exp" in UF and base.decl().eq(UF["exp"]):
+            out[i] = uf("exp", _arith("mul", base.arg(0), x))  # exp(t)**x = exp(t*x) for every real x
+        elif not is_sym(x) and Fraction(x).denominator == 1 and 0 <= int(x) <= 8:
+            acc = Fraction(1)
+            for _ in range(int(x)):
+                acc = _arith("mul", acc, base)
+            out[i] = acc
+        else:
+            raise Unsupported("pow with a base other than e / exp(t) and a non-integer or symbolic exponent")
     return (out, None)
 
 
